@@ -94,7 +94,11 @@ func (rp *Replayer) runCases(pkgDir string, cases []ReplayCase) ([]*ReplayResult
 		js, _ := json.Marshal(rem)
 		os.WriteFile(cf, js, 0o644)
 		to := time.Duration(60+25*len(rem)) * time.Second
-		out, err := runCmd(filepath.Join(repoDir, pkgDir), []string{"VF_REPLAY=" + cf, "VF_RESULT=" + rf}, to,
+		runDir := filepath.Join(repoDir, pkgDir)
+		if _, serr := os.Stat(runDir); serr != nil {
+			runDir = repoDir
+		}
+		out, err := runCmd(runDir, []string{"VF_REPLAY=" + cf, "VF_RESULT=" + rf}, to,
 			bin, "-test.run", "^TestVFReplay$", "-test.timeout", to.String())
 		data, rerr := os.ReadFile(rf)
 		if rerr != nil {
